@@ -111,6 +111,45 @@ def time_env(tm_now):
             return Struct([z3.If(x < y, y, z3.If(x > c.f[0], c.f[0], x))])
         raise EngineError('Duration::' + k)
 
+    def sys_now(ex, st, callee, args, fn):
+        st.trace = st.trace + (Event('SystemTime::now', (), None),)
+        return Struct([tm_now])
+
+    def duration_since(ex, st, callee, args, fn):
+        a = ex.deref(st, args[0]) if isinstance(args[0], Ref) else args[0]
+        b = ex.deref(st, args[1]) if isinstance(args[1], Ref) else args[1]
+        x, y = a.f[0], b.f[0]
+        return Enum(z3.If(x >= y, z3.IntVal(0), z3.IntVal(1)), {'Ok': Struct([Struct([x - y])]), 'Err': Struct([Opaque('SystemTimeError')])})
+
+    def dur_checked(ex, st, callee, args, fn):
+        a = ex.deref(st, args[0]) if isinstance(args[0], Ref) else args[0]
+        b = ex.deref(st, args[1]) if isinstance(args[1], Ref) else args[1]
+        k = callee.rsplit('::', 1)[1]
+        x, y = a.f[0], b.f[0]
+        v = x + y if k == 'checked_add' else x - y
+        ok = z3.And(v >= 0, v <= DUR_MAX_NS)
+        return Enum(z3.If(ok, z3.IntVal(1), z3.IntVal(0)), {'Some': Struct([Struct([v])]), 'None': UNIT})
+
+    def dur_arith(ex, st, callee, args, fn):
+        a = ex.deref(st, args[0]) if isinstance(args[0], Ref) else args[0]
+        b = ex.deref(st, args[1]) if isinstance(args[1], Ref) else args[1]
+        op = re.search(r' as (Add|Sub|Mul|Div)', callee).group(1)
+        x = a.f[0]
+        y = b.f[0] if isinstance(b, Struct) else b
+        if op == 'Add':
+            return Struct([x + y])
+        if op == 'Sub':
+            from mirsym.exec import Obligation
+            ex.obligations.append(Obligation(z3.And(st.pcond(), x < y), 'overflow when subtracting durations', fn.name))
+            return Struct([x - y])
+        if op == 'Mul':
+            return Struct([x * y])
+        return Struct([x / y])
+
+    def dur_f64(ex, st, callee, args, fn):
+        a = ex.deref(st, args[0]) if isinstance(args[0], Ref) else args[0]
+        return FLin(z3.ToReal(a.f[0]) / NS)
+
     def chrony_float(ex, st, callee, args, fn):
         v = args[0]
         if not isinstance(v, FLin):
@@ -120,14 +159,16 @@ def time_env(tm_now):
             (r'(^|::)SystemTime::elapsed$', elapsed), (r'(^|::)Duration::from_secs$', from_secs), (r'(^|::)Duration::try_from_secs_f64$', try_from_secs_f64), (r'(^|::)Duration::from_millis$', from_millis),
             (r'(^|::)Duration::(as_nanos|as_micros|as_millis|as_secs|subsec_nanos|subsec_micros|subsec_millis|is_zero)$', dur_get),
             (r'^<Duration as PartialOrd>::(gt|ge|lt|le)$|^<Duration as PartialEq>::(eq|ne)$', dur_cmp),
-            (r'^<Duration as Ord>::(max|min|clamp)$|(^|::)Duration::(saturating_sub|saturating_add)$', dur_minmax)]
+            (r'^<Duration as Ord>::(max|min|clamp)$|(^|::)Duration::(saturating_sub|saturating_add)$', dur_minmax),
+            (r'(^|::)SystemTime::now$', sys_now), (r'(^|::)SystemTime::duration_since$', duration_since), (r'(^|::)Duration::(checked_add|checked_sub)$', dur_checked),
+            (r'^<Duration as (Add|Sub)(<Duration>)?>::(add|sub)$|^<Duration as (Mul|Div)<u32>>::(mul|div)$', dur_arith), (r'(^|::)Duration::as_secs_f64$', dur_f64)]
 
 
 DUR_MAX_NS = (2 ** 64 - 1) * NS + 999_999_999
 
 
 def time_consts():
-    return [(r'(^|::)Duration::MAX$', Struct([z3.IntVal(DUR_MAX_NS)])), (r'(^|::)Duration::ZERO$', Struct([z3.IntVal(0)]))]
+    return [(r'(^|::)Duration::MAX$', Struct([z3.IntVal(DUR_MAX_NS)])), (r'(^|::)Duration::ZERO$', Struct([z3.IntVal(0)])), (r'(^|::)UNIX_EPOCH$', Struct([z3.IntVal(0)]))]
 
 
 def run_extract(prog, tm):
